@@ -73,7 +73,7 @@ func runC04(r *R) {
 		"(R3) Touch sets the time by path under the same flock, with time.Now(); (R4) TrashItem trashes only when request age ≥ TTL, stored mtime == requested mtime, BlobTrash on; " +
 		"(R5) Volume.Trash is called only from TrashItem and handleDELETE (admin + BlobTrash); (R6) EmptyTrash removes only names matching the trash pattern whose embedded deadline has passed; " +
 		"(R7) every remove/rename in the driver is one of temp cleanup, Trash, EmptyTrash, Untrash(trash-named source); (R9) whatever is renamed onto a block path has just been given a current timestamp; " +
-		"(R10) every rename onto / away from / removal of / timestamping of a block path happens under flock on a descriptor opened on that path. " +
+		"(R10) every rename onto / away from / removal of / timestamping of a block path happens under flock on a descriptor opened on that path; (R11) Trash deletes outright only when BlobTrashLifetime == 0 and otherwise renames into the trash, refuses only on read-only volumes or with trash disabled, and Untrash reports not-found only when no trashed copy is present. " +
 		"flock(2) then serialises Touch/Trash/WriteBlock critical sections; interleavings themselves are not executed."
 	r.NotDec = []string{"interleavings as such (argued from flock semantics)", "trash-lifetime arithmetic", "S3/Azure drivers (outside the property's quantifier)"}
 	r.Assume = []string{"flock(2) LOCK_EX excludes other holders on the same inode", "rename(2)/unlink(2) semantics", "time.Since/time.Now are the wall clock"}
